@@ -18,12 +18,12 @@ GEOMS_EXH_QUICK = [  # (nd, np, zmode, hashsize, ncontent, nfiles[, kind])
     (2, 1, False, None, 1, 6), (3, 1, False, 4, 2, 8), (2, 2, False, None, 2, 7), (3, 2, False, None, 1, 10),
     (4, 2, False, 4, 1, 12), (2, 3, True, None, 1, 6), (3, 3, False, None, 1, 9), (2, 4, False, None, 1, 6),
     (2, 6, False, 8, 1, 5), (4, 1, False, None, 3, 20), (3, 3, True, 4, 1, 8), (2, 5, False, None, 1, 4),
-    (3, 2, False, None, 1, 8, 'hist'), (2, 2, False, None, 1, 4, 'twins'), (3, 1, False, None, 1, 5, 'twins'), (3, 2, False, None, 1, 8, 'rehash'), (2, 1, False, 8, 1, 6, 'rehash'), (3, 2, False, None, 1, 6, 'rehash_sync'),
+    (3, 2, False, None, 1, 8, 'hist'), (2, 2, False, None, 1, 4, 'twins'), (3, 1, False, None, 1, 5, 'twins'), (3, 2, False, None, 1, 8, 'rehash'), (2, 1, False, 8, 1, 6, 'rehash'), (3, 2, False, None, 1, 6, 'rehash_sync'), (3, 2, False, None, 2, 5, 'holes'),
 ]
 GEOMS_EXH_THOROUGH = GEOMS_EXH_QUICK + [
     (4, 3, False, None, 1, 14), (3, 4, False, None, 1, 10), (4, 4, False, 4, 1, 12), (3, 5, False, None, 1, 8), (3, 6, False, None, 1, 8),
     (4, 3, True, None, 2, 16), (2, 2, False, 4, 1, 5), (3, 2, False, None, 3, 1), (4, 6, False, None, 1, 18),
-    (2, 2, False, None, 2, 5, 'rehash_sync'), (4, 3, False, None, 1, 10, 'rehash_sync'),
+    (2, 2, False, None, 2, 5, 'rehash_sync'), (4, 3, False, None, 1, 10, 'rehash_sync'), (2, 1, False, None, 1, 6, 'holes'), (4, 3, False, 4, 1, 7, 'holes'),
 ]
 
 
@@ -36,7 +36,7 @@ class Trial:
         self.kind = geom[6] if len(geom) > 6 else None
         self.rng = random.Random(seed)
         self.arr = Array(binary, nd=nd, np_=np_, zmode=z, hashsize=hs, ncontent=nc)
-        if self.kind == 'twins':
+        if self.kind in ('twins', 'holes'):
             # the same file names and sizes on every disk: every stripe holds a block of every disk
             self.recipe = []
             base = 1700000000 * 10**9
@@ -50,6 +50,19 @@ class Trial:
         r = self.arr.run('sync', '--test-force-murmur3')
         if r.rc == 0 and self.kind in ('hist', 'twins'):
             r = self.history()
+        if r.rc == 0 and self.kind == 'holes':
+            # the files that occupy the same positions on EVERY disk are deleted (one in the middle, the last one) and the array is
+            # synced again: fully unused stripes in the middle and at the end of the parity range; sometimes a small file lands in
+            # the first position of the middle hole of one disk
+            nf_ = geom[5]
+            for k in sorted(set([1, nf_ - 1])):
+                for d in self.arr.disks:
+                    self.arr.remove(d, 'f%d' % k)
+                self.recipe.append(('remove_everywhere', 'f%d' % k))
+            if self.rng.random() < 0.5:
+                self.arr.write(self.arr.disks[0], 'g', self.rng.randbytes(700))
+                self.recipe.append(('file', self.arr.disks[0], 'g', 700))
+            r = self.arr.run('sync', '--test-force-murmur3')
         if r.rc == 0 and self.kind in ('rehash', 'rehash_sync'):
             r = self.arr.run('rehash')
             self.recipe.append(('rehash', r.rc))
@@ -166,6 +179,10 @@ class Trial:
         perr, n = a.check_parity(self.st)
         if perr:
             bad.append('after fix the independent parity checker says: %s' % perr[0])
+        for pf, saved in sorted(self.sv.parity.items()):
+            now_size = os.path.getsize(pf) if os.path.exists(pf) else None
+            if saved is not None and now_size != len(saved):
+                bad.append('after fix the parity file %s has %s bytes, the synced one had %d' % (os.path.basename(pf), now_size, len(saved)))
         for b in bad[:2]:
             chk.violation(label, '%s, damage within the parity level (%s): %s' % (self.geomstr(), '; '.join(desc)[:300], b),
                           dict(replay, fix_rc=r.rc, fix_tags=tags[:60], problems=bad))
@@ -239,6 +256,32 @@ class Trial:
         if desc and (r0.rc == 0 or not t0):
             self.chk.violation('objects_check', '%s, damaged entries (%s): check exits %d and reports %s' % (self.geomstr(), '; '.join(desc)[:300], r0.rc, t0[:2]), dict(replay, check_tags=t0[:20]))
         return self.judge('objects', desc or ['no damage'], replay)
+
+    def parity_rebuild_trials(self):
+        """every parity level lost or truncated alone (the array has fully unused stripes in the middle and at the end of the parity
+        range), rebuilt by fix: judged as every trial (bytes, independent parity recomputation of every used stripe, exact parity
+        sizes, check quiet) and then a FOLLOWING loss of as many data disks as there are levels must still be recovered"""
+        a, chk = self.arr, self.chk
+        for l in range(a.np):
+            for kind in ('delete', 'truncate'):
+                restore(a, self.sv)
+                rng = random.Random(self.rng.getrandbits(32))
+                self.grown = []
+                desc = damage_parity(a, l, kind, rng)
+                replay = {'kind': 'parity_rebuild', 'geom': self.geom, 'seed': self.seed, 'recipe': self.recipe, 'damage': desc}
+                if not self.judge('parity_rebuild', desc or ['%s %s' % (kind, levname(a, l))], replay):
+                    continue
+                lost = a.disks[:min(a.np, a.nd)]
+                for d in lost:
+                    wipe_disk(a, d)
+                self.ntrials += 1
+                r = a.run('fix')
+                bad = (['fix exits %d' % r.rc] if r.rc else []) + compare_with_saved(a, self.sv, self.st)[:2]
+                for b in bad[:1]:
+                    chk.violation('parity_rebuild_then_loss', '%s, %s rebuilt by fix, then the data disks %s lost: %s' % (self.geomstr(), '; '.join(desc)[:200], lost, b),
+                                  dict(replay, lost=lost, problems=bad, fix_tags=interesting(r.tags)[:30]))
+                if len(chk.violations) > 8:
+                    return
 
     def apply_devices(self, subset, rng):
         a = self.arr
@@ -502,16 +545,25 @@ def main(tier, replay=None):
                 if len(chk.violations) > 8:
                     break
                 T.one_pattern(T.rng.getrandbits(32))
+            if T.kind == 'holes':
+                T.parity_rebuild_trials()
             if T.kind is None:
                 for _ in range(1 if tier == 'quick' else 4):
                     T.second_fix(T.rng.getrandbits(32))
                     T.objects_trial(T.rng.getrandbits(32))
         T.close()
         return T
+    lrng = random.Random(rng.getrandbits(32))
     with cf.ThreadPoolExecutor(max_workers=min(8, NCPU)) as ex:
+        # a file larger than 4 GiB damaged beyond and below 2^32 bytes (thorough: also lost) and fixed (runs beside the arrays)
+        lfs = [ex.submit(large_fix_trial, chk, binary, lrng, v, True, 'large_fix') for v in (['damage'] if tier == 'quick' else ['damage', 'lost'])]
         for T in ex.map(one, jobs):
             tot['trials'] += T.ntrials; tot['model'] += T.nmodel; tot['blocks'] += T.nblocks_damaged; tot['arrays'] += 1
             samples += T.samples[:1]
+        try:
+            chk.cov['large_offset_fix'] = [f.result() for f in lfs]
+        except Exception as e:
+            chk.notes.append('large offset fix trial failed: %s' % e)
     chk.cov.update({'evaluations': tot['trials'], 'distinct_nontrivial': tot['trials'],
                     'rule': 'arrays %s (nd, np, z-mode, hash size, content copies, files) synced cleanly; EVERY subset of <= np devices (data disk dir / parity level) damaged by a random kind among %s / %s (+ loss of all but one content copy), and %d sampled per-stripe patterns per array with <= np damaged blocks in every stripe; each trial = exact restore, damage, real `fix`, real `check`, independent snapshot comparison (bytes, mtime with the collide rule, links, hard links, dirs) + independent parity checker; non-trivial = trials' % (
                         [g[:4] + g[6:] for g in geoms], DATA_KINDS, PAR_KINDS, npat),
